@@ -66,6 +66,8 @@ def run(m: Model, r: Report, tier: str) -> None:
     rw = m.require_function(f"{HSFZ}.HSFZConnection._read_worker")
     r.check(not lm.acquisitions(rw), "R3", f"{rw.qualname}#lock-free", "the reader task takes a lock itself", loc=rw.loc)
 
+    tr.reader_loop_total(r, "R3", rw, ("self._read_queue.put(", "self.send_alive_msg("))
+
     # ---------------------------------------------------------------- R4
     mt = [n for n in walk_no_nested(rw.node) if isinstance(n, ast.Match) and ast.unparse(n.subject) == "hdr.CWord"]
     if len(mt) != 1:
